@@ -226,7 +226,24 @@ def history_strategy(tier, interrupts=False):
                      kinds, cfg, st.lists(call, min_size=1, max_size=12), pieces, st.sampled_from([None, None, [False, True]]), st.booleans())
 
 
+def nested_cases(tier, seed):
+    """a call made on the same pooled client from inside another call (by the deserializer that decodes the outer reply, by
+    the serializer before the outer command is sent): see props/c09.py for the harness"""
+    from props import c09
+    for case in c09.reentrant_cases(tier, seed):
+        if case["inner_fault"] is None or case["when"] == "deserialize":
+            yield case
+
+
+def check_nested(case):
+    """each of the two calls consumes the reply to its own command only: the outer call's unread VALUE / END lines are not the
+    nested call's, and the nested call's reply is not the outer call's"""
+    from props import c09
+    return c09.check_reentrant(case)
+
+
 PARTS = [
+    Part("calls-nested-in-calls", "enum", check_nested, cases=nested_cases, exhaustive=True),
     Part("single-fault-sweep", "enum", check, cases=sweep_cases, exhaustive=True),
     Part("rejected-batches", "enum", check, cases=rejected_batch_cases, exhaustive=True),
     Part("deserialiser-failures", "enum", check_serde_failure, cases=serde_failure_cases, exhaustive=True),
